@@ -129,13 +129,43 @@ def gen_input_module(rng, mostly_good=True, n_entries=None, kinds=None):
     nimp = 0 if r < 0.3 else 1 if r < 0.6 else rng.choice([2, 2, 3, 4])
     import_lines = rng.sample(IMPORT_LINES, nimp)
     future = rng.random() < 0.25
-    form = "dict" if rng.random() < 0.8 else "pairs"
-    if form == "dict":
-        mapping = "M = {%s}" % ", ".join("%r: %s" % (e["key"], e["feat"]["obj"]) for e in entries)
-    else:
-        mapping = "M = (%s)" % "".join("(%r, %s), " % (e["key"], e["feat"]["obj"]) for e in entries)
+    r = rng.random()
+    form = "dict" if r < 0.62 else "pairs" if r < 0.76 else rng.choice(MAPPING_FORMS_OTHER)
+    mapping = mapping_source(form, entries)
     src = "\n".join(([FUTURE] if future else []) + import_lines + ["", ""] + body + [mapping]) + "\n"
     return dict(src=src, entries=entries, import_lines=import_lines, future=future, mapping_form=form)
+
+
+# what the symbol named by --input-mapping is: gen documents "dictionary/mapping/2-tuple collection".  Besides a dict
+# literal and a tuple of pairs: a list of pairs, dict subclasses, mappings that are NOT dicts (a read-only
+# types.MappingProxyType, a collections.abc.Mapping subclass) and one-shot iterables of pairs (iterator, generator).
+# The helper is a function so that the input module gains no root-level import (those are what imports-from-file reads).
+MAPPING_FORMS_OTHER = ["list-pairs", "ordered", "defaultdict", "proxy", "proxy", "abc-mapping", "abc-mapping", "iter",
+                       "generator"]
+_MAPPING_HELPERS = {
+    "ordered": "    from collections import OrderedDict\n    return OrderedDict(pairs)",
+    "defaultdict": "    from collections import defaultdict\n    return defaultdict(list, pairs)",
+    "proxy": "    from types import MappingProxyType\n    return MappingProxyType(dict(pairs))",
+    "abc-mapping": ("    from collections.abc import Mapping\n\n    class Registry(Mapping):\n"
+                    "        def __init__(self, items):\n            self._d = dict(items)\n\n"
+                    "        def __getitem__(self, key):\n            return self._d[key]\n\n"
+                    "        def __iter__(self):\n            return iter(self._d)\n\n"
+                    "        def __len__(self):\n            return len(self._d)\n\n    return Registry(pairs)"),
+    "iter": "    return iter(pairs)",
+    "generator": "    return (p for p in pairs)",
+}
+
+
+def mapping_source(form, entries):
+    """the statement(s) binding M; every form spells an entry as `'key': Obj` or `('key', Obj)`"""
+    if form == "dict":
+        return "M = {%s}" % ", ".join("%r: %s" % (e["key"], e["feat"]["obj"]) for e in entries)
+    pairs = "(%s)" % "".join("(%r, %s), " % (e["key"], e["feat"]["obj"]) for e in entries)
+    if form == "pairs":
+        return "M = " + pairs
+    if form == "list-pairs":
+        return "M = [%s]" % ", ".join("(%r, %s)" % (e["key"], e["feat"]["obj"]) for e in entries)
+    return "def _vg_mapping(pairs):\n%s\n\n\nM = _vg_mapping(%s)" % (_MAPPING_HELPERS[form], pairs)
 
 
 _COUNTER = [0]
@@ -163,7 +193,30 @@ def draw_layout(rng):
     r = rng.random()
     if r < 0.6:
         return {"kind": "flat"}
-    return {"kind": "pkg", "depth": 1 if r < 0.85 else 2, "reexport": rng.random() < 0.5}
+    lay = {"kind": "pkg", "depth": 1 if r < 0.85 else 2, "reexport": rng.random() < 0.5}
+    # import lines the package's own __init__.py files carry (what `--imports-from-file <package name>` reads)
+    lay["init_imports"] = rng.sample(IMPORT_LINES, rng.choice([0, 1, 1, 2, 3]))
+    return lay
+
+
+# the directory the invocation runs from: "project" = the directory that holds the input module / package (the usual
+# way to run a tool on one's own project: relative names there coincide with module and package names), "elsewhere" = an
+# unrelated, empty directory
+CWDS = ["project", "project", "elsewhere"]
+# how the output file is spelled on the command line (the file is the same): absolute, relative to the working
+# directory, with a literal `~` (HOME is the scratch root; the shell did not expand it), through a symlinked directory
+OUT_SPELLINGS = ["plain", "dot-relative", "tilde", "symlinked-dir"]
+
+
+def draw_out(rng, existing):
+    """output spelling of a command-line invocation.  A literal `~` is drawn only onto an existing output here: with a
+    fresh output the unchanged code ends in FileNotFoundError (it never expands `~`), which the callers that judge
+    'runs without an internal error' must not be handed as an in-domain point (reported as a finding instead)"""
+    r = rng.random()
+    sp = "plain" if r < 0.55 else "dot-relative" if r < 0.7 else "symlinked-dir" if r < 0.85 else "tilde"
+    if sp == "tilde" and existing is None:
+        sp = "plain"
+    return {"spelling": sp}
 
 
 def names_of(case):
@@ -251,6 +304,9 @@ def gen_case(rng, **force):
         imports = {"how": "none"}
     elif r < 0.5:
         imports = {"how": "module"}
+        if layout["kind"] == "pkg" and rng.random() < 0.5:
+            # the name of a package: its __init__.py is the file (at depth 2 the inner package half of the time)
+            imports = {"how": "package", "level": "top" if layout.get("depth", 1) == 1 or rng.random() < 0.5 else "parent"}
     elif r < 0.62:
         imports = {"how": "file"}
     elif r < 0.78:
@@ -269,6 +325,13 @@ def gen_case(rng, **force):
         imports = {"how": "symbol", "form": "mapping"}
     else:
         imports = {"how": "other", "src": "import (\n"}
+    if imports["how"] in ("module", "package", "symbol") and "imports" not in force and rng.random() < 0.12:
+        # the working directory holds an entry of exactly the name given: a directory (a name is not a file: it is still
+        # resolved as module / symbol) or a regular file (a file wins: its imports are the ones taken)
+        imports["decoy"] = rng.choice(["dir", "dir", "file"])
+        if imports["decoy"] == "file":
+            imports["decoy_src"] = "\n".join(rng.sample(IMPORT_LINES, rng.choice([1, 2]))) + "\n"
+    cwd = force["cwd"] if "cwd" in force else rng.choice(CWDS)
     r = rng.random()
     shape = force.get("prepend_shape")                 # force: a prepend importing the input module, in this shape
     if "prepend" in force:
@@ -305,10 +368,12 @@ def gen_case(rng, **force):
         mod["entries"][0]["key_override"] = rng.choice(["a b", "x-y", "1st", "it's", "q\"q", "back\\slash"])
     tags += ["type-" + type_, "imports-" + imports["how"] + ("-" + imports["form"] if "form" in imports else ""),
              "prepend-" + ("none" if prepend is None else "given" if prepend.endswith("\n") else "given-no-final-newline"),
-             "existing" if existing is not None else "fresh",
+             "existing" if existing is not None else "fresh", "cwd-" + str(cwd), "mapping-" + mod["mapping_form"],
              "layout-" + layout["kind"] + (str(layout.get("depth", "")) + ("-reexport" if layout.get("reexport") else ""))]
     c = _new_case(rng, "gen", uid=uid, modbase=uid, layout=layout, module=mod, type_=type_, name_tpl=tpl, prepend=prepend,
-                  imports=imports, mapping_ref=mapping_ref, existing=existing, opts=opts)
+                  imports=imports, mapping_ref=mapping_ref, existing=existing, opts=opts, cwd=cwd)
+    if "decoy" in imports:
+        tags.append("decoy-" + imports["decoy"])
     c["tags"] = tags
     if "key_override" in (mod["entries"][0] if mod["entries"] else {}):
         e = mod["entries"][0]
@@ -492,10 +557,13 @@ def materialise(case):
     tmp = tempfile.mkdtemp(prefix="verif_gen_")
     parts = modname.split(".")
     d = tmp
+    init_imports = (case.get("layout") or {}).get("init_imports") or []
     for i, p in enumerate(parts[:-1]):
         d = os.path.join(d, p)
         os.mkdir(d)
         with open(os.path.join(d, "__init__.py"), "w") as f:
+            if init_imports:
+                f.write('""" package """\n' + "\n".join(init_imports) + "\n")
             if n["reexport"]:
                 f.write("from .%s import %s\n" % (".".join(parts[i + 1:]), n["obj"]))
     modfile = os.path.join(d, parts[-1] + ".py")
@@ -508,6 +576,8 @@ def materialise(case):
             f.write(imp["src"])
     elif imp["how"] == "module":
         imp_arg = modname
+    elif imp["how"] == "package":
+        imp_arg = (n["parent"] if imp.get("level") == "parent" else n["base"]) if n["parent"] else modname
     elif imp["how"] == "file":
         imp_arg = modfile
     elif imp["how"] == "symbol":
@@ -519,11 +589,41 @@ def materialise(case):
     ref = case["mapping_ref"]
     input_mapping = {"ok": modname + ".M", "nodot": "M", "nomodule": "verif_no_such_" + case["uid"] + ".M",
                      "noattr": modname + ".NOPE"}[ref]
+    # the working directory of the invocation (None = case from before working directories were drawn: the in-process
+    # route stays where the harness is, the command-line route runs in the project directory)
+    cwd = None
+    if case.get("cwd") == "project":
+        cwd = tmp
+    elif case.get("cwd") == "elsewhere":
+        cwd = os.path.join(tmp, "_elsewhere")
+        os.mkdir(cwd)
+    if imp.get("decoy") and imp_arg is not None and cwd is not None:
+        decoy = os.path.join(cwd, imp_arg)
+        if not os.path.lexists(decoy):
+            if imp["decoy"] == "dir":
+                os.mkdir(decoy)
+            else:
+                with open(decoy, "w") as f:
+                    f.write(imp.get("decoy_src", "import os\n"))
+    # the output file, and how the command line spells it
+    spelling = (case.get("out") or {}).get("spelling", "plain")
     out_path = os.path.join(tmp, "output.py")
+    out_arg = out_path
+    if spelling == "dot-relative":
+        out_path = os.path.join(cwd or tmp, "output.py")
+        out_arg = os.path.join(".", "output.py")
+    elif spelling == "tilde":
+        out_arg = os.path.join("~", "output.py")          # HOME is tmp (see env)
+    elif spelling == "symlinked-dir":
+        os.mkdir(os.path.join(tmp, "_outdir"))
+        os.symlink("_outdir", os.path.join(tmp, "_outlink"))
+        out_path = os.path.join(tmp, "_outdir", "output.py")
+        out_arg = os.path.join(tmp, "_outlink", "output.py")
     if case["existing"] is not None:
         with open(out_path, "w") as f:
             f.write(case["existing"])
-    return dict(tmp=tmp, modname=modname, imp_arg=imp_arg, input_mapping=input_mapping, out_path=out_path)
+    return dict(tmp=tmp, modname=modname, imp_arg=imp_arg, input_mapping=input_mapping, out_path=out_path, out_arg=out_arg,
+                cwd=cwd, env={"HOME": tmp})
 
 
 @contextlib.contextmanager
@@ -532,11 +632,15 @@ def activated(ws, remove=True):
     (by default) delete the directory"""
     saved_path = list(sys.path)
     saved_modules = set(sys.modules)
+    saved_cwd = os.getcwd()
     try:
         sys.path.insert(0, ws["tmp"])
         importlib.invalidate_caches()
+        if ws.get("cwd"):
+            os.chdir(ws["cwd"])           # relative names (an imports-from-file argument) mean what they mean there
         yield ws
     finally:
+        os.chdir(saved_cwd)
         sys.path[:] = saved_path
         for k in set(sys.modules) - saved_modules:
             if k.startswith("verif_genin_"):
